@@ -78,6 +78,11 @@ def run(chk, tier, proof_ok):
         for k_, v in more.items():
             findings.setdefault(k_, v)
         scov['full_search_after_divergence'] = mcov
+    import realsearch
+    ef, est = realsearch.early_reset_findings(chk.seed)
+    for key, text, payload in ef:
+        findings.setdefault(key, (text, dict(payload, nsteps=0)))
+    scov['early_resets'] = est
     bad, first_zero = representable_probe()
     c = chk.coverage
     c['correspondence'] = {'adapt': cov}
